@@ -12,7 +12,13 @@ plan('C16',
           'read back through asl; it is non-trivial when it has >= 3 items including at least one multi-byte scalar; distinct = hash of the initial '
           'order + the item-type sequence (array element types and the target of every setEndian included, values and lengths excluded). '
           'Stratum A (modes buffer/file/socket) keeps non-empty arrays of multi-byte elements off the not-swapped (host order: LITTLE/NATIVE on x86-64) '
-          'array path; stratum B (modes *_hostorder_arrays) puts at least one on it in every sequence',
+          'array path; stratum B (modes *_hostorder_arrays) puts at least one on it in every sequence. About 8% of the items write the Array object '
+          'of an earlier item again (same object, kept alive), half of them after a further setEndian; after every << the object handed over is '
+          'compared (memcmp) with an independent copy built from the bit patterns. Mode socket_frag: the reference bytes of a stratum-B sequence are '
+          'sent through the raw descriptor in pieces (four styles: 1..3 bytes, 1..7 bytes, 1..7 with some 8..64, cuts inside values only) with up to '
+          '32 pauses of 100 us..2 ms per case, each taken only after FIONREAD on the reading descriptor shows that the reader has consumed everything '
+          'sent so far; such a case is non-trivial only if at least one pause fell inside a multi-byte value (a forced short read), distinct = type '
+          'sequence + style',
      jobs=[
          # stratum A: must be completely clean
          Job(H, 'buffer', 'plain', quick=300000, thorough=3000000, shards=(8, 16)),
@@ -28,6 +34,9 @@ plan('C16',
          Job(H, 'file_hostorder_arrays', 'asan', quick=4000, thorough=30000, shards=(2, 8)),
          Job(H, 'socket_hostorder_arrays', 'plain', quick=3000, thorough=40000, shards=(2, 8)),
          Job(H, 'socket_hostorder_arrays', 'asan', quick=1500, thorough=20000, shards=(2, 8)),
+         # Socket read-back with fragmented delivery (forced short reads); the cases mostly sleep
+         Job(H, 'socket_frag', 'plain', quick=2400, thorough=40000, shards=(8, 16)),
+         Job(H, 'socket_frag', 'asan', quick=1200, thorough=20000, shards=(8, 16)),
      ],
      assumptions=COMMON_ASSUME + [
          'host is x86-64 (little endian): NATIVE and LITTLE take the not-swapped paths, BIG the swapped ones; the host order is measured at run time by the harness, independently of ASL_BIGENDIAN',
@@ -36,11 +45,16 @@ plan('C16',
          'read(n)/readString(n) of the known length, and with operator>>(String&) of File/Socket when the writer sent the int32 length first',
          'strings contain no NUL byte; Array<String> and nested arrays are not exercised (sizeof(T) bytes per element is meaningless for them)',
          'Socket is exercised over AF_UNIX stream socketpairs wrapped with Socket(fd); File on the local scratch file system',
+         'socket_frag judges only the reading side (Socket >> and readString) in blocking mode; short reads are produced by the delivery schedule of '
+         'the peer, not by signals or non-blocking descriptors',
      ])
 
 T('C16', 'reference-model monitor: byte-by-byte reference serializer vs bytes in the StreamBuffer, in the file (POSIX read) and on a raw socketpair fd, plus typed read-back, under ASan/UBSan and at -O2',
   'Runs the real stream operators on random sequences of up to 64 typed values, arrays (0..100 elements of every scalar type) and strings with byte-order '
   'switches at arbitrary points, for BIG, LITTLE and NATIVE, on the three stream classes; every produced byte and every value read back is compared '
-  '(memcmp on bit patterns). Reports per-type, per-order, per-array-element-type counts and the number of distinct item-type sequences.',
+  '(memcmp on bit patterns). Source objects are compared with an independent copy after every << and Array objects are written more than once, so an '
+  'operator that damages its argument is seen both directly and in later bytes. Socket read-back is repeated with fragmented delivery (pieces of 1..7 '
+  'bytes cut inside 2/4/8-byte values, paced so that short reads are certain, counted as frag.short_reads_forced) with guard bytes around the object '
+  'read into. Reports per-type, per-order, per-array-element-type counts and the number of distinct item-type sequences.',
   'Trusts the harness serializer (shift-and-mask from the integer bit pattern), gcc ASan/UBSan, POSIX read, AF_UNIX socketpairs. Little-endian host only; '
   'big-endian hosts (where LITTLE is the swapped order) are not reachable here. Exploration, not proof.')
